@@ -273,6 +273,7 @@ C07_PROGS = [
     (["R GET /{a: /x|y/}-{b}", "R GET /v{c}/{n: **, capture: 1}/z"], "GET"),
     (["R GET /{m: **, capture: 1}", "R GET /{m: **, capture: 3}/a/{n: **, capture: 2}"], "GET"),
     (["R PUT /"], "?"),
+    (["R GET /a", "H 0 X-K=v", "R GET /{x}", "R POST /a"], "?"),
 ]
 
 C07_TREES = [
@@ -400,7 +401,7 @@ def c03_jobs(tier, seed):
     # (middleware, group handlers, route handlers, action, cancel, kinds, deep)
     if tier == "quick":
         shapes = [(1, 0, 1, 1, 0, "010", 3), (1, 1, 1, 1, 0, "0101", 2), (1, 1, 1, 1, 0, "1010", 2), (0, 0, 2, 0, 1, "01", 2),
-                  (2, 0, 1, 0, 1, "100", 1)]
+                  (2, 0, 1, 0, 1, "100", 1), (0, 3, 1, 0, 0, "0000", 1)]
     else:
         shapes = []
         for kinds in ("000", "111", "010", "101"):
@@ -611,6 +612,7 @@ C08_CURATED = [
     ["/N0//N1"], ["/N0/"], ["/"], ["/N0/?N1/N2"],
     ["/{N0: **}/N1", "/{N2: **}/N1"], ["/{N0: **}/{N1: **}/N2"],
     ["/{N0: /x+/}", "/{N1: /x+/}"], ["/{N0}", "/{N1}"],
+    ["/N0", "/{N1: /[0-9]/}", "/{N2}", "/?N3"], ["/?N0", "/N1"], ["/N0/N1", "/N0/{N2}", "/N0/?{N3: **}"],
 ]
 
 
